@@ -781,8 +781,6 @@ class Fxp():
     def _update_dtype(self, notation=None):
         if notation is None:
             notation = self.config.dtype_notation
-        else:
-            notation = 'fxp'
 
         if self.signed is not None and self.n_word is not None and self.n_frac is not None:
             if notation == 'Q':
